@@ -176,6 +176,13 @@ def _substitute_original_strings(original_source: str, new_source: str) -> str:
         else:
             continue
 
+        # Several strings next to each other, on lines of their own, would be indented again
+        quotes = most_common_original_formatting.lstrip("bBfFrRuU")[:3]
+        if "\n" in most_common_original_formatting and not (
+            quotes in {"'''", '"""'} and most_common_original_formatting.count(quotes) == 2
+        ):
+            continue
+
         original_modifiers = set()
         new_modifiers = set()
 
